@@ -118,3 +118,24 @@ func TestRegressRecursiveContainsIntermediate(t *testing.T) {
 	wantSet(t, "recursiveContains alone",
 		runQ(t, ix, &search.Constraint{Dir: &search.DirConstraint{RecursiveContains: rc}}, search.Unsorted), top.RefS, sub.RefS)
 }
+
+// fix 435ee72: one camliMember claim naming a blob the index never received made
+// every parent/child relation query touching that permanode fail with
+// "file does not exist".
+func TestRegressRelationDanglingEdge(t *testing.T) {
+	if evid.Replaying() {
+		t.Skip()
+	}
+	w := vw.New()
+	p0, p1, p2 := w.AddPermanode("p0"), w.AddPermanode("p1"), w.AddPermanode("p2")
+	w.AddClaim(p0, day(0), "add-attribute", "camliMember", vw.DanglingRef)
+	w.AddClaim(p0, day(1), "add-attribute", "camliMember", p1.RefS)
+	w.AddClaim(p2, day(0), "add-attribute", "camliMember", vw.DanglingRef)
+	w.AddClaim(p1, day(0), "add-attribute", "tag", "foo")
+	ix, err := w.Build()
+	if err != nil {
+		t.Fatal(err)
+	}
+	c := &search.Constraint{Permanode: &search.PermanodeConstraint{Relation: &search.RelationConstraint{Relation: "child", Any: &search.Constraint{CamliType: schema.TypePermanode}}}}
+	wantSet(t, "child any with dangling member", runQ(t, ix, c, search.Unsorted), p0.RefS)
+}
